@@ -3,7 +3,7 @@ from symx.api import *
 
 PROPERTY = 'C13'
 LEVEL = 'model_checking'
-FILES = ['mesonbuild/arglist.py', 'mesonbuild/compilers/mixins/clike.py']
+FILES = ['mesonbuild/arglist.py', 'mesonbuild/compilers/mixins/clike.py', 'mesonbuild/compilers/mixins/gnu.py']
 ENCODED = ['arglist.CompilerArgs.__init__/__iadd__/__add__/__radd__/append/extend/append_direct/extend_direct/insert/copy/__iter__/__len__/__eq__/'
            'flush_pre_post/_can_dedup/_should_prepend (lru_cache stripped)', 'compilers.mixins.clike.CLikeCompilerArgs tables and dedup1_regex']
 EXPLANATION = ('Symbolic execution of the real CLikeCompilerArgs: operation sequences (enumerated by the executor through choose()) whose arguments are '
@@ -334,6 +334,43 @@ def ob_to_native(n):
     return h
 
 
+def ob_include_sources():
+    """how the backend combines include directories: one `commands += compiler.get_include_args(dir, is_system)` per directory and source (the real
+    GnuCCompiler.get_include_args feeding the real CLikeCompilerArgs), two sources that share a directory. Whatever spelling the compiler chooses, every
+    directory ends up ONCE on the command line, in the position the contract gives it: a repeated -I moves to the front, a repeated -isystem to the end"""
+    def h():
+        from mesonbuild.compilers.c import GnuCCompiler
+        comp = object.__new__(GnuCCompiler)
+        d = ['inc/' + sym_str(1, 'd%d' % i, alphabet='ab') for i in range(2)]
+        sysflag = [choose(2, 'dir%d is a system include dir' % i) == 1 for i in range(2)]
+        a = CA(comp)
+        order = [0, 1, choose(2, 'the second source repeats directory')]        # source 1: d0, d1; source 2: one of them again
+        settings = []
+        for i in order:
+            toks = comp.get_include_args(d[i], sysflag[i])
+            a += list(toks)
+            kind = 'isystem' if sysflag[i] else 'I'
+            # eager meaning on SETTINGS: -I goes to the front (an earlier identical one goes), -isystem to the end (an earlier identical one goes)
+            same = [j for j, (k_, p_) in enumerate(settings) if k_ == kind and decide(bt_any(p_ == d[i]))]
+            for j in reversed(same): del settings[j]
+            if kind == 'I': settings.insert(0, (kind, d[i]))
+            else: settings.append((kind, d[i]))
+        got = []; toks = list(a); j = 0
+        while j < len(toks):
+            t = toks[j]
+            if decide(bt_any(t == '-isystem')) and j + 1 < len(toks): got.append(('isystem', toks[j + 1])); j += 2; continue
+            if sw(t, ('-isystem',)): got.append(('isystem', t[8:]))
+            elif sw(t, ('-I',)): got.append(('I', t[2:]))
+            else: got.append(('?', t))
+            j += 1
+        check(len(got) == len(settings), 'every include directory is on the command line once')
+        if len(got) == len(settings):
+            for (gk, gp), (ek, ep) in zip(got, settings):
+                check(gk == ek and len(gp) == len(ep) and decide(bt_any(eq(gp, ep))), 'include directories in the order the contract gives: repeated -I first, repeated -isystem last')
+        cover('done')
+    return h
+
+
 def obligations(tier):
     q = tier == 'quick'
     out = [Obligation('classify', ob_classify(), dict(kinds=len(KINDS) + len(EXACT)), labels=('plain', 'ovr', 'unq'))]
@@ -352,6 +389,7 @@ def obligations(tier):
     for n in ((2, 3) if tier == 'quick' else (2, 3, 4)):
         out.append(Obligation('to-native[%d]' % n, ob_to_native(n), dict(arguments=n, kinds='-lX libX.a /x/libX.so /x/libX.so.1 -isystem<default> (3 spellings) -isystem<other> -DX -Wl,--export-dynamic -Wl,-lX; X symbolic', linker='GNU-like', batches='one | one per argument', copy='both'),
                               labels=('done', 'group', 'stripped'), max_paths=3000000))
+    out.append(Obligation('include-sources', ob_include_sources(), dict(real='GnuCCompiler.get_include_args feeding CLikeCompilerArgs.__iadd__', sources='2 directories (symbolic names), each plain or system, then one of them again'), labels=('done',)))
     out.append(Obligation('cross-class', ob_cross_class(), dict(classes='two of CompilerArgs / CLikeCompilerArgs / DCompilerArgs, either order', arguments='3 choices out of %d concrete strings' % len(CONCRETE),
                                                                  increments=2, memo='the original lru_cache wrappers are in place'), labels=('done',)))
     return out
